@@ -17,7 +17,7 @@ def nameTok (s : String) : Token := ⟨.name, s.toList⟩
 theorem nameTok_text (s : String) : String.ofList (nameTok s).text = s := by
   simp [nameTok, String.ofList_toList]
 
-variable (d : Dec) (cT : Const → List Token) (ot : BinOp → List Char)
+variable (d : Dec) (cT : Const → List Token) (ot : BinOp → List Char) (P : Const → Prop)
 
 -- token printer ----------------------------------------------------------------------------------------------------
 
@@ -99,7 +99,7 @@ mutual
     | .atom a => WFA a
   /-- negation only outermost; a member or selector of a plain variable is part of the variable -/
   def WFA : Atom → Prop
-    | .const _ => True
+    | .const c => P c
     | .var v => WFV v
     | .call _ args => WFArgs args
     | .meth recv _ args => WFA recv ∧ isNeg recv = false ∧ WFArgs args
@@ -115,15 +115,15 @@ mutual
     | .cons e rest => WFE e ∧ WFArgs rest
 end
 
-theorem WG_of_WFE : (e : Expr) → WFE e → WG e
+theorem WG_of_WFE : (e : Expr) → WFE P e → WG e
   | .bin op l r => by intro h; simp only [WFE] at h; exact ⟨WG_of_WFE l h.1, WG_of_WFE r h.2.1, h.2.2.1, h.2.2.2⟩
   | .paren neg e => by intro h; simp only [WFE] at h; exact WG_of_WFE e h
   | .atom a => by intro _; trivial
 
 -- constants: any tokens the literal decoder maps back --------------------------------------------------------------------
 
-/-- the tokens of a constant are read back as that constant, whatever follows -/
-def ConstOK : Prop := ∀ c rest, parseConst d (cT c ++ rest) = some (.ok (c, rest))
+/-- the tokens of every admitted constant (`P`) are read back as that constant, whatever follows -/
+def ConstOK : Prop := ∀ c, P c → ∀ rest, parseConst d (cT c ++ rest) = some (.ok (c, rest))
 
 /-- head kinds that can start a constant -/
 def constHead : TK → Bool
@@ -134,8 +134,8 @@ theorem parseConst_head (t : Token) (rest : List Token) (x : Except PErr (Const 
     (h : parseConst d (t :: rest) = some x) : constHead t.kind = true := by
   cases hk : t.kind <;> simp_all [parseConst, constHead, isNumTok]
 
-theorem const_tokens (hc : ConstOK d cT) (c : Const) : ∃ t rest, cT c = t :: rest ∧ constHead t.kind = true := by
-  have h := hc c []
+theorem const_tokens (hc : ConstOK d cT P) (c : Const) (hp : P c) : ∃ t rest, cT c = t :: rest ∧ constHead t.kind = true := by
+  have h := hc c hp []
   cases hct : cT c with
   | nil => simp [hct, parseConst] at h
   | cons t rest =>
@@ -171,10 +171,11 @@ theorem fV_name (v : Var) : ∃ n rest, fV cT ot v = nameTok n :: rest := by
   · exact h
 
 /-- head of a negation-free atom: a good head that is not `!` -/
-theorem fA_head_core (hc : ConstOK d cT) : (a : Atom) → WFA a → isNeg a = false → ∃ t rest, fA cT ot a = t :: rest ∧ goodHead t.kind ∧ t.kind ≠ .bang
+theorem fA_head_core (hc : ConstOK d cT P) : (a : Atom) → WFA P a → isNeg a = false → ∃ t rest, fA cT ot a = t :: rest ∧ goodHead t.kind ∧ t.kind ≠ .bang
   | .const c => by
-    intro _ _
-    obtain ⟨t, rest, h, hk⟩ := const_tokens d cT hc c
+    intro hw _
+    have hp : P c := by simpa only [WFA] using hw
+    obtain ⟨t, rest, h, hk⟩ := const_tokens d cT P hc c hp
     exact ⟨t, rest, by simp only [fA, h], (constHead_good _ hk).1, (constHead_good _ hk).2.1⟩
   | .var v => by
     intro _ _
@@ -201,7 +202,7 @@ theorem fA_head_core (hc : ConstOK d cT) : (a : Atom) → WFA a → isNeg a = fa
   | .neg a => by intro _ h; simp [isNeg] at h
 
 /-- head of any atom: a good head; after a leading `!` never an opening bracket -/
-theorem fA_head (hc : ConstOK d cT) : (a : Atom) → WFA a →
+theorem fA_head (hc : ConstOK d cT P) : (a : Atom) → WFA P a →
     ∃ t rest, fA cT ot a = t :: rest ∧ goodHead t.kind ∧ (t.kind = .bang → ∃ t2 r2, rest = t2 :: r2 ∧ t2.kind ≠ .lparen)
   | .neg a => by
     intro hw
@@ -210,31 +211,31 @@ theorem fA_head (hc : ConstOK d cT) : (a : Atom) → WFA a →
     exact ⟨tk .bang, fA cT ot a, by simp only [fA], by simp [goodHead, tk], fun _ => ⟨t, rest, h, hg.1⟩⟩
   | .const c => by
     intro hw
-    obtain ⟨t, rest, h, hg, hb⟩ := fA_head_core d cT ot hc (.const c) hw rfl
+    obtain ⟨t, rest, h, hg, hb⟩ := fA_head_core d cT ot P hc (.const c) hw rfl
     exact ⟨t, rest, h, hg, fun hb' => absurd hb' hb⟩
   | .var v => by
     intro hw
-    obtain ⟨t, rest, h, hg, hb⟩ := fA_head_core d cT ot hc (.var v) hw rfl
+    obtain ⟨t, rest, h, hg, hb⟩ := fA_head_core d cT ot P hc (.var v) hw rfl
     exact ⟨t, rest, h, hg, fun hb' => absurd hb' hb⟩
   | .call f args => by
     intro hw
-    obtain ⟨t, rest, h, hg, hb⟩ := fA_head_core d cT ot hc (.call f args) hw rfl
+    obtain ⟨t, rest, h, hg, hb⟩ := fA_head_core d cT ot P hc (.call f args) hw rfl
     exact ⟨t, rest, h, hg, fun hb' => absurd hb' hb⟩
   | .meth recv f args => by
     intro hw
-    obtain ⟨t, rest, h, hg, hb⟩ := fA_head_core d cT ot hc (.meth recv f args) hw rfl
+    obtain ⟨t, rest, h, hg, hb⟩ := fA_head_core d cT ot P hc (.meth recv f args) hw rfl
     exact ⟨t, rest, h, hg, fun hb' => absurd hb' hb⟩
   | .member recv n => by
     intro hw
-    obtain ⟨t, rest, h, hg, hb⟩ := fA_head_core d cT ot hc (.member recv n) hw rfl
+    obtain ⟨t, rest, h, hg, hb⟩ := fA_head_core d cT ot P hc (.member recv n) hw rfl
     exact ⟨t, rest, h, hg, fun hb' => absurd hb' hb⟩
   | .sel recv idx => by
     intro hw
-    obtain ⟨t, rest, h, hg, hb⟩ := fA_head_core d cT ot hc (.sel recv idx) hw rfl
+    obtain ⟨t, rest, h, hg, hb⟩ := fA_head_core d cT ot P hc (.sel recv idx) hw rfl
     exact ⟨t, rest, h, hg, fun hb' => absurd hb' hb⟩
 
 /-- head of an expression: a good head or an opening bracket — never `)` `,` `]` -/
-theorem fE_head (hc : ConstOK d cT) : (e : Expr) → WFE e → ∃ t rest, fE cT ot e = t :: rest ∧ t.kind ≠ .rparen ∧ t.kind ≠ .comma ∧ t.kind ≠ .rsq
+theorem fE_head (hc : ConstOK d cT P) : (e : Expr) → WFE P e → ∃ t rest, fE cT ot e = t :: rest ∧ t.kind ≠ .rparen ∧ t.kind ≠ .comma ∧ t.kind ≠ .rsq
   | .bin op l r => by
     intro hw
     simp only [WFE] at hw
@@ -248,7 +249,7 @@ theorem fE_head (hc : ConstOK d cT) : (e : Expr) → WFE e → ∃ t rest, fE cT
   | .atom a => by
     intro hw
     simp only [WFE] at hw
-    obtain ⟨t, rest, h, hg, _⟩ := fA_head d cT ot hc a hw
+    obtain ⟨t, rest, h, hg, _⟩ := fA_head d cT ot P hc a hw
     exact ⟨t, rest, by simp only [fE, h], hg.2.1, hg.2.2.1, hg.2.2.2.1⟩
 
 -- unfolding lemmas for the atom-level functions ------------------------------------------------------------------------
@@ -486,15 +487,15 @@ theorem full_of_core (a : Atom) (hcore : CoreStmt d cT ot a) : FullStmt d cT ot 
 def InnerStmt (e : Expr) : Prop :=
   ∀ (f : Nat) (ts : List Token), nE e ≤ f → stopAtom ts = true → headOp ts = none → parseExpr d (f + 1) 0 (fE cT ot e ++ ts) = .ok (e, ts)
 
-theorem inner_of_atomsOK (e : Expr) (hw : WFE e) (hat : AtomsOK d (fA cT ot) nA e) : InnerStmt d cT ot e := by
+theorem inner_of_atomsOK (e : Expr) (hw : WFE P e) (hat : AtomsOK d (fA cT ot) nA e) : InnerStmt d cT ot e := by
   intro f ts hf hs ho
-  have := parse_roundtrip d (fA cT ot) nA ot e (WG_of_WFE e hw) hat 0 f ts (Nat.zero_le _) (by rw [need_eq]; exact hf) hs
+  have := parse_roundtrip d (fA cT ot) nA ot e (WG_of_WFE P e hw) hat 0 f ts (Nat.zero_le _) (by rw [need_eq]; exact hf) hs
     (by intro op h; rw [ho] at h; cases h)
   rw [flat_eq] at this
   exact this
 
 mutual
-  theorem atomsOK (hc : ConstOK d cT) : (e : Expr) → WFE e → AtomsOK d (fA cT ot) nA e
+  theorem atomsOK (hc : ConstOK d cT P) : (e : Expr) → WFE P e → AtomsOK d (fA cT ot) nA e
     | .bin op l r => by
       intro hw; simp only [WFE] at hw
       exact ⟨atomsOK hc l hw.1, atomsOK hc r hw.2.1⟩
@@ -504,11 +505,11 @@ mutual
     | .atom a => by
       intro hw; simp only [WFE] at hw
       refine ⟨fun g ts hg hs => (atomThm hc a hw).2 g ts hg hs, ?_⟩
-      obtain ⟨t, rest, h, hg, hb⟩ := fA_head d cT ot hc a hw
+      obtain ⟨t, rest, h, hg, hb⟩ := fA_head d cT ot P hc a hw
       exact ⟨t, rest, h, hg.1, hb⟩
 
   /-- both statements about an atom (the first one only matters without leading negation) -/
-  theorem atomThm (hc : ConstOK d cT) : (a : Atom) → WFA a → (isNeg a = false → CoreStmt d cT ot a) ∧ FullStmt d cT ot a
+  theorem atomThm (hc : ConstOK d cT P) : (a : Atom) → WFA P a → (isNeg a = false → CoreStmt d cT ot a) ∧ FullStmt d cT ot a
     | .neg a => by
       intro hw; simp only [WFA] at hw
       refine ⟨fun h => by simp [isNeg] at h, ?_⟩
@@ -519,11 +520,12 @@ mutual
       simp only [fA, List.cons_append]
       exact parseAtom_neg d g' (tk .bang) _ ts a rfl this
     | .const c => by
-      intro _
+      intro hw
+      have hpc : P c := by simpa only [WFA] using hw
       have hcore : CoreStmt d cT ot (.const c) := by
         intro g ts _ _ _
-        obtain ⟨t, rest, h, hk⟩ := const_tokens d cT hc c
-        have hp := hc c ts
+        obtain ⟨t, rest, h, hk⟩ := const_tokens d cT P hc c hpc
+        have hp := hc c hpc ts
         simp only [fA, ns, Nat.sub_zero]
         rw [h] at hp ⊢
         exact parseAtom_const d g t (rest ++ ts) ts c (constHead_good _ hk).2.1 hp
@@ -629,7 +631,7 @@ mutual
     | .sel r idx => by
       intro hw; simp only [WFA] at hw
       have hr := (atomThm hc r hw.1).1 hw.2.1
-      have hidx := inner_of_atomsOK d cT ot idx hw.2.2.2 (atomsOK hc idx hw.2.2.2)
+      have hidx := inner_of_atomsOK d cT ot P idx hw.2.2.2 (atomsOK hc idx hw.2.2.2)
       have hcore : CoreStmt d cT ot (.sel r idx) := by
         intro g ts hg _ _
         simp only [nA] at hg
@@ -646,7 +648,7 @@ mutual
       exact ⟨fun _ => hcore, full_of_core d cT ot _ hcore⟩
 
   /-- the tail loop of a variable -/
-  theorem varThm (hc : ConstOK d cT) : (v : Var) → WFV v → ∀ (g : Nat) (ts : List Token), nV v ≤ g + 1 → noLParen ts = true →
+  theorem varThm (hc : ConstOK d cT P) : (v : Var) → WFV P v → ∀ (g : Nat) (ts : List Token), nV v ≤ g + 1 → noLParen ts = true →
       varTail d g (.root (rootName v)) (tailV cT ot v ++ ts) = varTail d (g - nvs v) v ts
     | .root n => by
       intro _ g ts _ _
@@ -671,7 +673,7 @@ mutual
       simp only [WFV] at hw
       simp only [nV] at hg
       have hvn := nvs_lt v
-      have hidx := inner_of_atomsOK d cT ot e hw.2 (atomsOK hc e hw.2)
+      have hidx := inner_of_atomsOK d cT ot P e hw.2 (atomsOK hc e hw.2)
       have h1 := varThm hc v hw.1 g (tk .lsq :: (fE cT ot e ++ (tk .rsq :: ts))) (by omega) rfl
       simp only [tailV, rootName, List.append_assoc, List.cons_append, List.nil_append]
       rw [h1]
@@ -683,7 +685,7 @@ mutual
       rw [this]
 
   /-- an argument list up to its closing bracket -/
-  theorem argsThm (hc : ConstOK d cT) : (args : Args) → WFArgs args → ∀ (g : Nat) (ts : List Token), nArgs args ≤ g + 1 →
+  theorem argsThm (hc : ConstOK d cT P) : (args : Args) → WFArgs P args → ∀ (g : Nat) (ts : List Token), nArgs args ≤ g + 1 →
       parseArgs d g (fArgs cT ot args ++ (tk .rparen :: ts)) = .ok (args, ts)
     | .nil => by
       intro _ g ts hg
@@ -696,9 +698,9 @@ mutual
       simp only [WFArgs] at hw
       simp only [nArgs] at hg
       obtain ⟨g', rfl⟩ : ∃ g', g = g' + 2 := ⟨g - 2, by omega⟩
-      have he := inner_of_atomsOK d cT ot e hw.1 (atomsOK hc e hw.1)
+      have he := inner_of_atomsOK d cT ot P e hw.1 (atomsOK hc e hw.1)
       have hm := moreThm hc rest hw.2 (g' + 1) ts (by omega)
-      obtain ⟨t, r0, hhead, hk⟩ := fE_head d cT ot hc e hw.1
+      obtain ⟨t, r0, hhead, hk⟩ := fE_head d cT ot P hc e hw.1
       have hstop : stopAtom (fMore cT ot rest ++ (tk .rparen :: ts)) = true ∧ headOp (fMore cT ot rest ++ (tk .rparen :: ts)) = none := by
         cases rest with
         | nil => simp [fMore, stopAtom, headOp, tk, binOpOf]
@@ -708,7 +710,7 @@ mutual
       rw [hhead] at h1 ⊢
       exact parseArgs_cons d (g' + 1) t (r0 ++ (fMore cT ot rest ++ (tk .rparen :: ts))) _ ts e rest hk.1 h1 hm
 
-  theorem moreThm (hc : ConstOK d cT) : (args : Args) → WFArgs args → ∀ (g : Nat) (ts : List Token), nArgs args ≤ g + 1 →
+  theorem moreThm (hc : ConstOK d cT P) : (args : Args) → WFArgs P args → ∀ (g : Nat) (ts : List Token), nArgs args ≤ g + 1 →
       moreArgs d g (fMore cT ot args ++ (tk .rparen :: ts)) = .ok (args, ts)
     | .nil => by
       intro _ g ts hg
@@ -721,7 +723,7 @@ mutual
       simp only [WFArgs] at hw
       simp only [nArgs] at hg
       obtain ⟨g', rfl⟩ : ∃ g', g = g' + 2 := ⟨g - 2, by omega⟩
-      have he := inner_of_atomsOK d cT ot e hw.1 (atomsOK hc e hw.1)
+      have he := inner_of_atomsOK d cT ot P e hw.1 (atomsOK hc e hw.1)
       have hm := moreThm hc rest hw.2 (g' + 1) ts (by omega)
       have hstop : stopAtom (fMore cT ot rest ++ (tk .rparen :: ts)) = true ∧ headOp (fMore cT ot rest ++ (tk .rparen :: ts)) = none := by
         cases rest with
@@ -736,10 +738,10 @@ end
     parentheses exactly its `paren` nodes, atoms in the listener's normal form — the parser model reads the tree's
     token sequence back as that tree, at any starting strength the tree's top operator allows, whatever follows that
     cannot continue the expression. -/
-theorem parse_print (hc : ConstOK d cT) (e : Expr) (hw : WFE e) (p f : Nat) (ts : List Token)
+theorem parse_print (hc : ConstOK d cT P) (e : Expr) (hw : WFE P e) (p f : Nat) (ts : List Token)
     (hp : p ≤ level e) (hf : nE e ≤ f) (hs : stopAtom ts = true) (hfollow : ∀ op, headOp ts = some op → prec op < p) :
     parseExpr d (f + 1) p (fE cT ot e ++ ts) = .ok (e, ts) := by
-  have := parse_roundtrip d (fA cT ot) nA ot e (WG_of_WFE e hw) (atomsOK d cT ot hc e hw) p f ts hp (by rw [need_eq]; exact hf) hs hfollow
+  have := parse_roundtrip d (fA cT ot) nA ot e (WG_of_WFE P e hw) (atomsOK d cT ot P hc e hw) p f ts hp (by rw [need_eq]; exact hf) hs hfollow
   rw [flat_eq] at this
   exact this
 
